@@ -284,40 +284,46 @@ class SpawnProcess(multiprocessing.context.SpawnProcess):
 
         self._mpservice_exitcode_ = 0
 
+        def report(result, error):
+            # Get all log records into the pipe before the parent learns the outcome:
+            # on receiving the outcome the parent puts the end marker into the same pipe,
+            # and records written after that marker would never be read---they would be
+            # lost, and once they fill the pipe this process could not even exit.
+            if qh is not None:
+                logging.getLogger().removeHandler(qh)
+                logger_queue.close()
+                logger_queue.join_thread()
+            result_and_error.send(result)
+            result_and_error.send(error)
+
         try:
             z = self._target(*self._args, **self._kwargs)
         except SystemExit as e:
             if e.code is None:
-                result_and_error.send(None)
-                result_and_error.send(None)
+                report(None, None)
             else:
                 if isinstance(e.code, int):
                     if e.code == 0:
-                        result_and_error.send(None)
-                        result_and_error.send(None)
+                        report(None, None)
                     else:
                         self._mpservice_exitcode_ = e.code
                         self.handle_exception(e)
-                        result_and_error.send(None)
-                        result_and_error.send(RemoteException(e))
+                        report(None, RemoteException(e))
                 else:
                     self._mpservice_exitcode_ = 1
                     self.handle_exception(e)
                     sys.stderr.write(f'exitcode: {e.code}' + '\n')
-                    result_and_error.send(None)
-                    result_and_error.send(RemoteException(e))
+                    report(None, RemoteException(e))
         except BaseException as e:
             self.handle_exception(e)
-            # This must go before the two lines below, in case
+            # This must go before the line below, in case
             # user's custom `handle_exception` writes logs.
             self._mpservice_exitcode_ = 1
             if self.daemon:
                 traceback.print_exc()
-            result_and_error.send(None)
-            result_and_error.send(RemoteException(e))
+            report(None, RemoteException(e))
         else:
-            result_and_error.send(z)
-            result_and_error.send(None)
+            report(z, None)
         finally:
             result_and_error.close()
             if qh is not None:
